@@ -317,10 +317,13 @@ func (p *Prog) Fn(name string) *ssa.Function {
 		}
 		return f
 	}
-	if f := p.fnNoRole(name); f != nil {
-		return f
+	// an anchor that can be found by the role it plays is looked for that way before a similar name is
+	// accepted (mqUnsubscribe -> evictUnused must not resolve to Subscribe)
+	if _, ok := roleFns[name]; !ok {
+		if f := p.fnNoRole(name); f != nil {
+			return f
+		}
 	}
-	// renamed beyond recognition: found by the role it plays
 	if r, ok := roleFns[name]; ok {
 		if p.roleMemo == nil {
 			p.roleMemo = map[string]*ssa.Function{}
@@ -330,10 +333,12 @@ func (p *Prog) Fn(name string) *ssa.Function {
 		}
 		p.roleMemo[name] = nil // guards against re-entry
 		f := r(p)
-		p.roleMemo[name] = f
-		if f != nil {
+		if f == nil {
+			f = p.fnNoRole(name)
+		} else {
 			p.fuzzy = append(p.fuzzy, name+" -> "+fnName(f)+" (by role)")
 		}
+		p.roleMemo[name] = f
 		return f
 	}
 	return nil
@@ -1099,6 +1104,46 @@ func refMethodNames(typ string) map[string]bool {
 }
 
 func init() {
+	// the eviction callback of the cache: the method handed to the timer queue when the cache starts
+	roleFns["(*rescache.Cache).mqUnsubscribe"] = func(p *Prog) *ssa.Function {
+		start := p.fnNoRole("(*rescache.Cache).Start")
+		if start == nil {
+			return nil
+		}
+		var hit *ssa.Function
+		for _, g := range p.withHelpers(start) {
+			for _, call := range callsIn(g) {
+				sf := call.Common().StaticCallee()
+				if sf == nil || sf.Pkg == nil || sf.Pkg.Pkg.Name() != "timerqueue" {
+					continue
+				}
+				for _, a := range call.Common().Args {
+					mc, ok := stripConv(a).(*ssa.MakeClosure)
+					if !ok {
+						continue
+					}
+					bf, _ := mc.Fn.(*ssa.Function)
+					if bf == nil {
+						continue
+					}
+					tf := bf
+					if strings.HasSuffix(bf.Name(), "$bound") {
+						if m := boundMethod(bf); m != nil {
+							tf = p.SSA.FuncValue(m)
+						}
+					}
+					if tf == nil || len(tf.Blocks) == 0 {
+						continue
+					}
+					if hit != nil && hit != tf {
+						return nil
+					}
+					hit = tf
+				}
+			}
+		}
+		return hit
+	}
 	// the adapter's teardown: the one function that closes the message channel
 	roleFns["(*nats.Client).close"] = func(p *Prog) *ssa.Function {
 		ch := p.Field("nats.Client.mqCh")
@@ -1126,4 +1171,4 @@ func init() {
 }
 
 // roleFnNames: the anchors that have a role-based resolver (kept apart from roleFns to avoid an initialisation cycle).
-var roleFnNames = map[string]bool{"(*nats.Client).close": true, "(*server.wsConn).outputWorker": true}
+var roleFnNames = map[string]bool{"(*nats.Client).close": true, "(*server.wsConn).outputWorker": true, "(*rescache.Cache).mqUnsubscribe": true}
